@@ -305,6 +305,7 @@ func checkC17(c *Ctx, e *Env) {
 	}
 	c.Count("query_methods", nQ)
 	c.Count("list_scans", nList)
+	importObligations(c, e, checkC15, "C15", "C17.IRI", "by-IRI queries#parser-agrees-with-encoder", "the queries keyed by an IRI resolve it with ParseIRI; they find the record of every anchored hash only if the parser accepts exactly what the encoders write", func(o *Oblig) bool { return o.Rule == "C15.CODEC" })
 	c.Min("query methods explored", 45, nQ)
 	c.Min("list scans matched", 30, nList)
 	rulePageAdapter(c, e)
